@@ -39,7 +39,7 @@ def to_matrix_indexing(axis: Union[str, int], indexing: str) -> str:
         str: converted axis in matrix indexing sense.
 
     """
-    assert indexing in "xy", "xyz"
+    assert indexing in ["xy", "xyz"]
 
     # Convert numeric axis description
     if isinstance(axis, int):
